@@ -186,7 +186,7 @@ def c06(g, tier):
         for rel in rels:
             ops.append({"op": "write_into", "rel": rel, "len": g.r.choice([0, 3, 64]), "fill": 0})
         yield ops
-    yield from midsize_sessions(g, "C06/mid", ["sdes", "nack", "fir", "firbig", "sizes"])
+    yield from midsize_sessions(g, "C06/mid", ["sdes", "nack", "fir", "firbig", "sizes"], quick=("c06" if tier == "quick" else False))
     # standalone SDES item / chunk writers
     for i in range(300 if tier == "quick" else 5000):
         bad = g.r.random() < 0.1
@@ -301,7 +301,7 @@ def c16(g, tier):
     for kind in ("tfb", "pfb"):
         for f in ("nack", "pli", "sli", "rpsi", "fir"):
             yield build_session(f"C16/fbkind/{kind}/{f}", kind, [{"c": "new", "fci": g.fci(f), "owned": g.r.random() < 0.5}], rt=False)
-    yield from midsize_sessions(g, "C16/mid", ["firbig"])
+    yield from midsize_sessions(g, "C16/mid", ["firbig"], quick=("c16" if tier == "quick" else False))
     # total size above 65536 words
     for nbytes in (262140 - 12, 262144 - 12, 262148 - 12):
         yield build_session(f"C16/big/app/{nbytes}", "app", [{"c": "new", "ssrc": [0, 1], "name": [65]}, {"c": "data", "v": [], "big": {"rep": 7, "n": nbytes}}], rt=False)
@@ -345,7 +345,7 @@ def c20(g, tier):
 
 
 
-def midsize_sessions(g, sidp, what):
+def midsize_sessions(g, sidp, what, quick=False):
     """structures larger than a handful of elements but below the maxima, where narrow counters wrap"""
     r = g.r
     if "sdes" in what:
@@ -374,7 +374,8 @@ def midsize_sessions(g, sidp, what):
             adds = [[i % 8192, (i * 5) % 8192, i % 64] for i in range(k)]
             yield build_session(f"{sidp}/sli/{k}", "pfb", [{"c": "new", "fci": {"f": "sli", "adds": adds}, "owned": True}], rt=True)
     if "firbig" in what:
-        for k in (8191, 8192, 32766, 32767):       # FIR entries: 16-bit arithmetic, and both sides of the 65536-word limit
+        for k in ((8192, 32766) if quick == "c06" else (32766, 32767) if quick == "c16" else (8191, 8192, 32766, 32767)):
+            # FIR entries: 16-bit arithmetic, and both sides of the 65536-word limit
             adds = [[[i // 65536 + 1, i % 65536], i % 256] for i in range(k)]
             yield build_session(f"{sidp}/firbig/{k}", "pfb", [{"c": "new", "fci": {"f": "fir", "adds": adds}, "owned": False}], rt=False)
     if "sizes" in what:
